@@ -61,8 +61,12 @@ static inline str jesc(const str &s) {
 }
 static inline str fmt(const char *f, ...) {
   char b[4096];
-  va_list ap; va_start(ap, f); vsnprintf(b, sizeof b, f, ap); va_end(ap);
-  return b;
+  va_list ap; va_start(ap, f); int n = vsnprintf(b, sizeof b, f, ap); va_end(ap);
+  if (n < (int)sizeof b) return b;
+  str big((size_t)n + 1, '\0');            // witnesses of large sets exceed the stack buffer
+  va_start(ap, f); vsnprintf(&big[0], big.size(), f, ap); va_end(ap);
+  big.resize((size_t)n);
+  return big;
 }
 static inline strs split(const str &s, char c) {
   strs o; str cur;
